@@ -338,8 +338,8 @@ def run_case(case: dict) -> dict:
             enc = single[32:32 + int.from_bytes(single[12:20], "little")]
             pos = arc.find(enc, 32) if enc else -1
             base = os.path.basename(nm)
-            if pos < 0 or sum(1 for x in files if os.path.basename(x["name"]) == base) != 1:
-                continue
+            if pos < 0 or arc.count(enc) != 1 or sum(1 for x in files if os.path.basename(x["name"]) == base) != 1:
+                continue  # (two members with identical bytes: the packed stream cannot be attributed to this one)
             b = bytearray(arc)
             b[pos + r.randrange(len(enc))] ^= 1 << r.randrange(8)
             arc2 = bytes(b)
